@@ -47,7 +47,7 @@ try:
         for c in checks:
             for t in tiers:
                 t0 = time.time()
-                rc, o = sh("cd %s && VERIF_REPO=%s timeout 3000 ./vcheck %s --tier %s 2>&1 | cut -c1-400 | grep -v '^KNOWN' | tail -6" % (ROOT, wt, c, t))
+                rc, o = sh("cd %s && VERIF_REPO=%s timeout 3000 ./vcheck %s --tier %s 2>&1 | cut -c1-400 | grep -v '^KNOWN' | grep -E '^VIOLATION|violation:|obligations' | tail -12" % (ROOT, wt, c, t))
                 viol = [l for l in o.splitlines() if l.startswith("VIOLATION")]
                 res = dict(check=c, tier=t, caught=bool(viol), no_failing_input=any("no-failing-input-found" in l for l in viol) and not any("no-failing-input-found" not in l for l in viol),
                            wall_s=round(time.time() - t0), tail=o[-700:])
